@@ -108,6 +108,8 @@ impl AsyncHandle {
         buffer.write_all(self.line_ending).inspect_err(|e| {
             eprint_err(ErrorCode::Write, "writing failed", &e);
         })?;
+        #[cfg(flexi_logger_verif)]
+        crate::verif_hooks::sched_point("async_send");
         self.sender.send(buffer).map_err(|_e| io_err("Send"))
     }
 
@@ -172,6 +174,8 @@ impl StateHandle {
             }
             #[cfg(feature = "async")]
             StateHandle::Async(handle) => {
+                #[cfg(flexi_logger_verif)]
+                crate::verif_hooks::sched_point("async_send");
                 handle
                     .sender
                     .send(buffer.to_owned())
@@ -243,6 +247,8 @@ impl StateHandle {
             StateHandle::Async(handle) => {
                 let mut buffer = handle.pop_buffer();
                 buffer.extend(ASYNC_FLUSH);
+                #[cfg(flexi_logger_verif)]
+                crate::verif_hooks::sched_point("async_send");
                 handle.sender.send(buffer).ok();
             }
         }
@@ -329,6 +335,8 @@ impl StateHandle {
             StateHandle::Async(handle) => {
                 let mut buffer = handle.pop_buffer();
                 buffer.extend(ASYNC_SHUTDOWN);
+                #[cfg(flexi_logger_verif)]
+                crate::verif_hooks::sched_point("async_send");
                 handle.sender.send(buffer).ok();
                 if let Ok(ref mut o_th) = handle.mo_thread_handle.lock() {
                     o_th.take().and_then(|th| th.join().ok());
